@@ -1,0 +1,46 @@
+//go:build verif
+
+// Round-trip lemmas for the WireGuard wire-message codecs (property C18), stated as Go functions over
+// the real FromBytes/ToBytes methods and proved by /verif/gvc for all inputs: every lemma must
+// return true. This file is only compiled with the build tag `verif`; nothing calls it.
+
+package l4wireguard
+
+import "bytes"
+
+func lemmaInitiationParseSerialize(src []byte) bool {
+	msg := &MessageInitiation{}
+	if msg.FromBytes(src) != nil {
+		return true
+	}
+	out, err := msg.ToBytes()
+	return err == nil && bytes.Equal(out, src)
+}
+
+func lemmaTransportParseSerialize(src []byte) bool {
+	msg := &MessageTransport{}
+	if msg.FromBytes(src) != nil {
+		return true
+	}
+	out, err := msg.ToBytes()
+	return err == nil && bytes.Equal(out, src)
+}
+
+func lemmaInitiationSerializeParse(m MessageInitiation) bool {
+	out, err := m.ToBytes()
+	if err != nil {
+		return false
+	}
+	g := &MessageInitiation{}
+	return g.FromBytes(out) == nil && *g == m
+}
+
+func lemmaTransportSerializeParse(typ uint32, receiver uint32, counter uint64, content []byte) bool {
+	m := &MessageTransport{Type: typ, Receiver: receiver, Counter: counter, Content: content}
+	out, err := m.ToBytes()
+	if err != nil {
+		return false
+	}
+	g := &MessageTransport{}
+	return g.FromBytes(out) == nil && g.Type == typ && g.Receiver == receiver && g.Counter == counter && bytes.Equal(g.Content, content)
+}
